@@ -7,5 +7,5 @@
 (declare-fun itcur (Int) Iface)
 (declare-fun parsefloat_val (Str) F64)
 (declare-fun parsefloat_ok (Str) Bool)
-(assert (forall ((q Int) (e Int)) (! (>= (slen q e) 0) :pattern ((slen q e)))))
+(assert (forall ((q Int) (e Int)) (! (and (>= (slen q e) 0) (< (slen q e) 4611686018427387904)) :pattern ((slen q e)))))  ; a stream is finite (fewer than 2^62 nodes)
 (declare-fun evalv (Int Int) Iface)
